@@ -1224,6 +1224,9 @@ def ev_call(ctx, node, env):
                 return (name,) + tuple(items_)                         # list(range(3)), list(zip(lit, lit)) ...
         if name == "sorted" and len(args) == 1 and not kws and args[0][0] in ("tuple", "list") and all(x[0] == "num" for x in args[0][1:]):
             return ("list",) + tuple(sorted(args[0][1:], key=lambda x: x[1]))
+        if name == "sorted" and len(args) == 1 and not kws and args[0][0] in ("tuple", "list") and len(args[0]) > 1 \
+                and all(x[0] == "tuple" and len(x) > 1 and all(y[0] == "num" for y in x[1:]) for x in args[0][1:]):
+            return ("list",) + tuple(sorted(args[0][1:], key=lambda x: tuple(y[1] for y in x[1:])))      # sorted(d.items()) of a numeric table
         if name == "len" and len(args) == 1 and args[0][0] in ("tuple", "list"):
             return T.num(len(args[0]) - 1)
         if name == "len" and len(args) == 1 and args[0][0] == "str":
@@ -1267,6 +1270,8 @@ def ev_call(ctx, node, env):
             return T.num(recv[1:].index(args[0]))          # position in a literal list of distinct atoms
         if recv[0] == "dict" and meth in ("keys", "values") and not args:
             return ("list",) + tuple((k if meth == "keys" else v) for k, v in recv[1])
+        if recv[0] == "dict" and meth == "items" and not args:
+            return ("list",) + tuple(("tuple", k, v) for k, v in recv[1])
         if recv[0] == "dict" and meth == "get" and args and args[0][0] == "str":
             for k, v in recv[1]:           # literal_dict.get("key"[, default])
                 if k == args[0]:
